@@ -41,4 +41,12 @@ CHECKS = {
                      "several parameter worlds, sizes and coins; the verifier must accept every run.  Floors make a run "
                      "that did not exercise every pair inconclusive.",
                 note=SAN_NOTE),
+    "C02": dict(ready=True, engine="two-party-engine", level="exploration", design_ref="DESIGN.md section 3 / C02, notes/c02.md",
+                technique="reference-model monitor: opened types vs. index component of the stack secret; bijection/rotation checks; import acceptance vs. sort-and-compare reference",
+                text="Every shuffle produced by the workload (all n! given permutations for n<=5, generated and cyclic secrets "
+                     "for n=1..64,128,511,512, chains of shuffles by several players, both encodings, repeated types) is opened "
+                     "card by card and compared with type(in[pi[i]]); generated secrets must be bijections / rotations by the "
+                     "reported offset; import() must accept exactly the bijective index vectors (all n^n vectors for small n, "
+                     "out-of-range values, import into used objects).",
+                note=SAN_NOTE),
 }
